@@ -39,13 +39,20 @@ finally:
 ok = out.get('applies') and out.get('suite_passes_with_change') and out.get('demo_fails_with_change') and out.get('demo_passes_without_change')
 out['confirmed'] = bool(ok)
 if ok:
-    rc, o = sh(f'git -C /repo apply {patch}')
+    # run the checks against a scratch copy of /repo with the change applied
+    # (VERIF_REPO), so /repo itself is never touched
+    rc_dir = f'/tmp/rc-{prop}-{k}'
+    sh(f'git -C /repo worktree remove --force {rc_dir}')
+    sh(f'git -C /repo worktree add --detach {rc_dir} HEAD')
     try:
+        rc, o = sh(f'git apply {patch}', cwd=rc_dir)
+        env['VERIF_REPO'] = rc_dir
         for cid in [prop] + extra:
             t = time.time()
             rc, o = sh(f'/verif/bin/vcheck {cid} --tier quick', cwd='/verif', timeout=3000)
             lines = [l for l in o.splitlines() if l.startswith(('VIOLATION', 'RESULT', 'INCONCLUSIVE', 'KNOWN', '  '))]
             out['checks'][cid] = {'exit': rc, 'wall_s': round(time.time() - t, 1), 'lines': lines[:8]}
     finally:
-        sh('git -C /repo checkout -- .')
+        env.pop('VERIF_REPO', None)
+        sh(f'git -C /repo worktree remove --force {rc_dir}')
 print(json.dumps(out, indent=1))
